@@ -177,6 +177,11 @@ func oracle(c *Case, o *Obs) (string, string) {
 		if p.matches(&lazy[i]) {
 			return "", ""
 		}
+		// a panic while a copied stream is read: the copy's other readers find the shared element
+		// abandoned and report ErrRecvAfterClosed; the run still fails (accepted, see notes/C13.md)
+		if lazy[i].pan >= 0 && p.Is[5] {
+			return "", ""
+		}
 	}
 	if p.Is[2] && hasLimit(c.G) {
 		return "", ""
